@@ -272,6 +272,8 @@ where
     /// Returns `true` if the counter existed and was removed, `false` otherwise.
     pub fn delete_counter(&self, key: &K) -> bool {
         let (hash, shard) = self.get_hash_and_shard_for_counter(key);
+        #[cfg(metrics_verif)]
+        metrics::verif::point("reg.delete");
         let mut shard_write = shard.write().unwrap_or_else(PoisonError::into_inner);
         let entry = shard_write.raw_entry_mut().from_key_hashed_nocheck(hash, key);
         if let RawEntryMut::Occupied(entry) = entry {
@@ -287,6 +289,8 @@ where
     /// Returns `true` if the gauge existed and was removed, `false` otherwise.
     pub fn delete_gauge(&self, key: &K) -> bool {
         let (hash, shard) = self.get_hash_and_shard_for_gauge(key);
+        #[cfg(metrics_verif)]
+        metrics::verif::point("reg.delete");
         let mut shard_write = shard.write().unwrap_or_else(PoisonError::into_inner);
         let entry = shard_write.raw_entry_mut().from_key_hashed_nocheck(hash, key);
         if let RawEntryMut::Occupied(entry) = entry {
@@ -302,6 +306,8 @@ where
     /// Returns `true` if the histogram existed and was removed, `false` otherwise.
     pub fn delete_histogram(&self, key: &K) -> bool {
         let (hash, shard) = self.get_hash_and_shard_for_histogram(key);
+        #[cfg(metrics_verif)]
+        metrics::verif::point("reg.delete");
         let mut shard_write = shard.write().unwrap_or_else(PoisonError::into_inner);
         let entry = shard_write.raw_entry_mut().from_key_hashed_nocheck(hash, key);
         if let RawEntryMut::Occupied(entry) = entry {
@@ -315,6 +321,8 @@ where
     /// Gets a copy of an existing counter.
     pub fn get_counter(&self, key: &K) -> Option<S::Counter> {
         let (hash, shard) = self.get_hash_and_shard_for_counter(key);
+        #[cfg(metrics_verif)]
+        metrics::verif::point("reg.get");
         let shard_read = shard.read().unwrap_or_else(PoisonError::into_inner);
         shard_read.raw_entry().from_key_hashed_nocheck(hash, key).map(|(_, v)| v.clone())
     }
@@ -322,6 +330,8 @@ where
     /// Gets a copy of an existing gauge.
     pub fn get_gauge(&self, key: &K) -> Option<S::Gauge> {
         let (hash, shard) = self.get_hash_and_shard_for_gauge(key);
+        #[cfg(metrics_verif)]
+        metrics::verif::point("reg.get");
         let shard_read = shard.read().unwrap_or_else(PoisonError::into_inner);
         shard_read.raw_entry().from_key_hashed_nocheck(hash, key).map(|(_, v)| v.clone())
     }
@@ -329,6 +339,8 @@ where
     /// Gets a copy of an existing histogram.
     pub fn get_histogram(&self, key: &K) -> Option<S::Histogram> {
         let (hash, shard) = self.get_hash_and_shard_for_histogram(key);
+        #[cfg(metrics_verif)]
+        metrics::verif::point("reg.get");
         let shard_read = shard.read().unwrap_or_else(PoisonError::into_inner);
         shard_read.raw_entry().from_key_hashed_nocheck(hash, key).map(|(_, v)| v.clone())
     }
@@ -350,12 +362,16 @@ where
         let (hash, shard) = self.get_hash_and_shard_for_counter(key);
 
         // Try and get the handle if it exists, running our operation if we succeed.
+        #[cfg(metrics_verif)]
+        metrics::verif::point("reg.goc.read");
         let shard_read = shard.read().unwrap_or_else(PoisonError::into_inner);
         if let Some((_, v)) = shard_read.raw_entry().from_key_hashed_nocheck(hash, key) {
             op(v)
         } else {
             // Switch to write guard and insert the handle first.
             drop(shard_read);
+            #[cfg(metrics_verif)]
+            metrics::verif::point("reg.goc.write");
             let mut shard_write = shard.write().unwrap_or_else(PoisonError::into_inner);
             let v = if let Some((_, v)) = shard_write.raw_entry().from_key_hashed_nocheck(hash, key)
             {
@@ -384,12 +400,16 @@ where
         let (hash, shard) = self.get_hash_and_shard_for_gauge(key);
 
         // Try and get the handle if it exists, running our operation if we succeed.
+        #[cfg(metrics_verif)]
+        metrics::verif::point("reg.goc.read");
         let shard_read = shard.read().unwrap_or_else(PoisonError::into_inner);
         if let Some((_, v)) = shard_read.raw_entry().from_key_hashed_nocheck(hash, key) {
             op(v)
         } else {
             // Switch to write guard and insert the handle first.
             drop(shard_read);
+            #[cfg(metrics_verif)]
+            metrics::verif::point("reg.goc.write");
             let mut shard_write = shard.write().unwrap_or_else(PoisonError::into_inner);
             let v = if let Some((_, v)) = shard_write.raw_entry().from_key_hashed_nocheck(hash, key)
             {
@@ -418,12 +438,16 @@ where
         let (hash, shard) = self.get_hash_and_shard_for_histogram(key);
 
         // Try and get the handle if it exists, running our operation if we succeed.
+        #[cfg(metrics_verif)]
+        metrics::verif::point("reg.goc.read");
         let shard_read = shard.read().unwrap_or_else(PoisonError::into_inner);
         if let Some((_, v)) = shard_read.raw_entry().from_key_hashed_nocheck(hash, key) {
             op(v)
         } else {
             // Switch to write guard and insert the handle first.
             drop(shard_read);
+            #[cfg(metrics_verif)]
+            metrics::verif::point("reg.goc.write");
             let mut shard_write = shard.write().unwrap_or_else(PoisonError::into_inner);
             let v = if let Some((_, v)) = shard_write.raw_entry().from_key_hashed_nocheck(hash, key)
             {
